@@ -1,7 +1,7 @@
 /-
 C08 (stages after parsing), the operation type printer, part C: assembly.
 
-For every definition of a document the operation checker accepts (schema: `SchemaValid`, `ifaceOkB`, `skipIncludeB`)
+For every definition of a document the operation checker accepts (schema: `schemaOkB`, `ifaceOkB`, `skipIncludeB`)
 that passes the decidable coherence check `noKeyClashB` (= C01's `cohB`: selections with one response key agree on
 field name and on having a sub-selection, recursively — the FieldsInSetCanMerge part the checker does not implement),
 `get_type_for_selection_set` returns a tree for ALL sufficiently large fuels of the model: none of the `expect` /
@@ -61,7 +61,7 @@ theorem fieldDepthBound_ok (S : Schema) : fieldDepthB S (fieldDepthBound S) = tr
 def ctxOf (S : Schema) (D : Doc) : Exec.Ctx := { S := S, F := OpTypes.fragsOf D, scalar := fun _ _ => true, fuel := 0 }
 
 section
-variable {S : Schema} {D : Doc} (hS : SchemaValid S) (hI : ifaceOkB S = true) (hSI : skipIncludeB S = true)
+variable {S : Schema} {D : Doc} (hS : schemaOkB S = true) (hI : ifaceOkB S = true) (hSI : skipIncludeB S = true)
   (h : checkOp S D = [])
 include hS hI hSI h
 
@@ -76,7 +76,7 @@ theorem def_walked {x : ExecDef} (hx : x ∈ D) (hni : ∀ i, x ≠ .imp i) :
     exact ⟨allowNone, [], some o.vars, admissible_none, hq⟩
   | frag f =>
     have hf : f ∈ CheckOp.fragsOf D := by simp only [CheckOp.fragsOf, List.mem_filterMap]; exact ⟨_, hx, rfl⟩
-    obtain ⟨A, vars, seen, hA, _, _, hq⟩ := frag_walked h (schemaValid_noReserved hS) hf
+    obtain ⟨A, vars, seen, hA, _, _, hq⟩ := frag_walked h (schemaOk_noReserved hS) hf
     exact ⟨A, seen, vars, hA, hq⟩
 
 /-- one definition: a tree for all sufficiently large fuels -/
